@@ -1,15 +1,19 @@
 #!/bin/bash
 # usage: confirm_seed.sh <worktree> <id>  — confirm a seeded change in its scratch worktree:
 #  (a) lib tests pass with the change, (b) demo test fails with it, (c) demo test passes without it
+# (no `git stash`: the stash is shared by all worktrees of a repository)
 wt="$1"; id="$2"
 cd "$wt" || exit 9
 export CARGO_NET_OFFLINE=true
+p="/tmp/confirm_$id.diff"
+git diff -- src > "$p"
+[ -s "$p" ] || { echo "no source change in $wt"; exit 9; }
 echo "[a] lib tests with the change"
 cargo test --offline --lib 2>&1 | grep -E "^test result" | tail -1
 echo "[b] demo test with the change (expected: FAILED)"
 cargo test --offline --test seeded_$id 2>&1 | grep -E "^test result|FAILED|panicked" | head -4
-git stash push -q -- src
+git apply -R "$p"
 echo "[c] demo test without the change (expected: ok)"
 cargo test --offline --test seeded_$id 2>&1 | grep -E "^test result" | tail -1
-git stash pop -q
+git apply "$p"
 git diff --stat -- src | tail -1
